@@ -206,5 +206,8 @@ package keeper
 //@ ensures [only_aggregates_of_the_disputed_block_change] forall q bytes :: forall t int :: changed(q, t) ==> old(agg_at(q, t)).MicroHeight == report.BlockNumber
 //@ ensures [only_aggregates_decided_by_the_disputed_reporter_change] forall q bytes :: forall t int :: changed(q, t) ==> old(agg_at(q, t)).Reporters[old(agg_at(q, t)).AggregateReportIndex].Reporter == report.Reporter
 //@ ensures [a_changed_aggregate_is_flagged_and_otherwise_the_same] forall q bytes :: forall t int :: changed(q, t) ==> agg_at(q, t).Flagged && agg_at(q, t).AggregateValue == old(agg_at(q, t)).AggregateValue && agg_at(q, t).AggregateReporter == old(agg_at(q, t)).AggregateReporter && agg_at(q, t).Index == old(agg_at(q, t)).Index && agg_at(q, t).ReporterPower == old(agg_at(q, t)).ReporterPower && agg_at(q, t).Height == old(agg_at(q, t)).Height && agg_at(q, t).MicroHeight == old(agg_at(q, t)).MicroHeight && agg_at(q, t).Reporters == old(agg_at(q, t)).Reporters
+//@ define decided_by(q, t, report) = agg_at(q, t).MicroHeight == report.BlockNumber && agg_at(q, t).Reporters[agg_at(q, t).AggregateReportIndex].Reporter == report.Reporter
+//@ ensures [the_aggregate_decided_by_the_disputed_report_is_flagged] err == nil ==> forall t int :: old(stored(bytes(report.QueryId), t)) && old(decided_by(bytes(report.QueryId), t, report)) && (forall t2 int :: old(stored(bytes(report.QueryId), t2)) && old(decided_by(bytes(report.QueryId), t2, report)) ==> t2 == t) ==> agg_at(bytes(report.QueryId), t).Flagged
 //@ loop 0 "for ; iter.Valid(); iter.Next()"
 //@ loop 0 invariant [nothing_changed_while_searching] nothing_written()
+//@ loop 0 invariant [no_match_among_visited] forall j in [0, itpos(iter)) :: !(k1(itkey(iter, j)) == bytes(report.QueryId) && oracle.Aggregates[itkey(iter, j)].Reporters[oracle.Aggregates[itkey(iter, j)].AggregateReportIndex].Reporter == report.Reporter)
